@@ -4,7 +4,7 @@
    while unread bytes remain) over ONE segmentation `chunks` of the stream `concat chunks`; the
    theorems quantify over all segmentations, with no bound on stream length or chunk count. *)
 From OlaBase Require Import Bytes.
-From C10 Require Import Gen Model Lemmas ProofsRecv ProofsUsb ProofsRobe ProofsOpc ProofsAcn Schedule ProofsSched ProofsSchedOpc.
+From C10 Require Import Gen Model Lemmas ProofsRecv ProofsUsb ProofsRobe ProofsOpc ProofsAcn ProofsAcnRef Schedule ProofsSched ProofsSchedOpc.
 Local Open Scope N_scope.
 
 (* Side obligations: the constants regenerated from the headers are the numbers used by the
@@ -102,26 +102,16 @@ Theorem c10_opc_bounds : forall chunks s out,
 Proof. intros chunks s out Hb H. exact (opc_reachable_bounds chunks s out Hb H). Qed.
 Print Assumptions c10_opc_bounds.
 
-(* ACN over TCP (IncomingStreamTransport with a consume-all inflator).  PARTIAL with respect to the
-   reference framer: proved here is that EVERY partition of a stream is processed without an
-   out-of-range store / runaway loop and delivers the same PDU sequence and reaches the same state as
-   the stream arriving all at once and as the stream arriving one byte at a time (the property's own
-   formulation).  That this common sequence equals ref_acn stream is checked by the correspondence on
-   every generated case, not proved. *)
-Theorem c10_acn_chunk_free_partial : forall (stream : list N) (chunks : list (list N)),
+(* ACN over TCP (IncomingStreamTransport with a consume-all inflator): for every byte stream and
+   EVERY partition the PDUs handed to the inflator are exactly those of the reference framer on the
+   whole stream — in particular the stream is invalidated (nothing more delivered) exactly where the
+   reference says: wrong packet identifier, or a PDU length smaller than its own length field — with
+   no store outside the allocated buffer and no runaway loop. *)
+Theorem c10_acn_chunk_free : forall (stream : list N) (chunks : list (list N)),
   concat chunks = stream ->
-  exists s out, feed a_recv a_init chunks = Done s out /\
-                feed a_recv a_init [stream] = Done s out /\
-                feed a_recv a_init (map (fun b => [b]) stream) = Done s out.
-Proof.
-  intros stream chunks H.
-  destruct (acn_partition_independent chunks [stream]) as [E1 (s & out & E)].
-  { cbn [concat]. rewrite app_nil_r. exact H. }
-  destruct (acn_partition_independent chunks (map (fun b => [b]) stream)) as [E2 _].
-  { rewrite concat_singletons. exact H. }
-  exists s, out. rewrite <- E1, <- E2. auto.
-Qed.
-Print Assumptions c10_acn_chunk_free_partial.
+  exists s, feed a_recv a_init chunks = Done s (ref_acn stream).
+Proof. intros stream chunks H. rewrite <- H. exact (acn_chunk_free chunks). Qed.
+Print Assumptions c10_acn_chunk_free.
 
 (* Buffer growth: in every reachable state of a still valid stream the bytes held fit the
    allocation (<= 2 MB), the allocation ReadRequiredData makes before reading covers everything still
@@ -165,10 +155,18 @@ Print Assumptions c10_schedule_opc.
 
 Theorem c10_schedule_acn : forall es,
   (exists s pend out, run_sched astate a_recv (a_init, [], []) es = Some (s, pend, out) /\
-     (pend = [] -> feed a_recv a_init [arrived es] = Done s out)) /\
+     (pend = [] -> out = ref_acn (arrived es))) /\
   (exists k s out, run_sched astate a_recv (a_init, [], []) (es ++ repeat Invoke k) = Some (s, [], out) /\
-     feed a_recv a_init [arrived es] = Done s out).
-Proof. exact acn_sched. Qed.
+     out = ref_acn (arrived es)).
+Proof.
+  intros es.
+  assert (forall s out, feed a_recv a_init [arrived es] = Done s out -> out = ref_acn (arrived es)) as K.
+  { intros s out H. destruct (acn_chunk_free [arrived es]) as (s' & E). rewrite E in H.
+    cbn [concat] in H. rewrite app_nil_r in H. inversion H. reflexivity. }
+  destruct (acn_sched es) as [(s & pend & out & R & D) (k & s2 & out2 & R2 & D2)]. split.
+  - exists s, pend, out. split; [exact R|]. intros Hp. exact (K s out (D Hp)).
+  - exists k, s2, out2. split; [exact R2|]. exact (K s2 out2 D2).
+Qed.
 Print Assumptions c10_schedule_acn.
 
 (* the hypotheses are satisfiable / the statements are not vacuous *)
